@@ -533,18 +533,30 @@ func (f *followingQuery) Select(t iterator) NodeNavigator {
 				}
 			} else {
 				var q *descendantQuery // descendant query
+				first := true
 				f.iterator = func() NodeNavigator {
 					for {
 						if q == nil {
-							for !node.MoveToNext() {
-								if !node.MoveToParent() {
-									return nil
+							if first && node.NodeType() == AttributeNode && node.MoveToParent() {
+								// The children of the owner element come after its
+								// attributes in document order.
+								first = false
+								q = &descendantQuery{
+									Input:     &contextQuery{},
+									Predicate: f.Predicate,
 								}
-							}
-							q = &descendantQuery{
-								Self:      true,
-								Input:     &contextQuery{},
-								Predicate: f.Predicate,
+							} else {
+								first = false
+								for !node.MoveToNext() {
+									if !node.MoveToParent() {
+										return nil
+									}
+								}
+								q = &descendantQuery{
+									Self:      true,
+									Input:     &contextQuery{},
+									Predicate: f.Predicate,
+								}
 							}
 							t.Current().MoveTo(node)
 						}
